@@ -434,6 +434,10 @@ func init() {
 		in.replaced[in.argStr(a[0])] = a[1].(Iface).v
 		return nil
 	})
+	reg(ndPkg+".Quiesce", func(in *Interp, fr *frame, a []Value) Value {
+		in.drain() // let every other goroutine run until it blocks or finishes
+		return nil
+	})
 	reg(ndPkg+".AllowLeak", func(in *Interp, fr *frame, a []Value) Value { in.extra["allowLeak"] = true; return nil })
 }
 
@@ -560,7 +564,7 @@ func (d *Driver) nativeRun(pkg string, harnessNames []string, files []string) (m
 	ovFile := filepath.Join(d.scratch, "overlay-"+pkgName+".json")
 	os.WriteFile(ovFile, ov, 0o644)
 
-	cmd := exec.Command("go", "test", "-tags", "verif", "-vet=off", "-count=1", "-overlay", ovFile, "-run", "^TestVerifReplay$", "-timeout", "600s", "-v", "./"+rel)
+	cmd := exec.Command("go", "test", "-tags", "verif", "-vet=off", "-count=1", "-overlay", ovFile, "-run", "^TestVerifReplay$", "-timeout", "240s", "-v", "./"+rel)
 	cmd.Dir = d.repo
 	var env []string
 	for _, kv := range os.Environ() {
